@@ -22,7 +22,7 @@ Definition cstate_eqb (a b : cstate) : bool :=
 Fixpoint list_eqb {A} (eqb : A -> A -> bool) (a b : list A) : bool :=
   match a, b with
   | [], [] => true
-  | x :: a', y :: b' => eqb x y && list_eqb eqb a' b'
+  | x :: a', y :: b' => if eqb x y then list_eqb eqb a' b' else false
   | _, _ => false
   end.
 Definition optnat_eqb (a b : option nat) : bool :=
@@ -271,10 +271,17 @@ Definition pc_eqb (a b : pc) : bool :=
   | _, _ => false
   end.
 Definition thread_eqb (a b : thread) : bool :=
-  optnat_eqb (t_gate a) (t_gate b) && kind_eqb (t_kind a) (t_kind b) && pc_eqb (t_pc a) (t_pc b).
+  if pc_eqb (t_pc a) (t_pc b)
+  then if kind_eqb (t_kind a) (t_kind b) then optnat_eqb (t_gate a) (t_gate b) else false
+  else false.
 Definition st_eqb (a b : st) : bool :=
-  list_eqb thread_eqb (ths a) (ths b) && Z.eqb (fx a) (fx b) && Bool.eqb (fclosed a) (fclosed b)
-  && list_eqb cstate_eqb (ctxs a) (ctxs b) && list_eqb Bool.eqb (gates a) (gates b).
+  if Bool.eqb (fclosed a) (fclosed b)
+  then if Z.eqb (fx a) (fx b)
+       then if list_eqb thread_eqb (ths a) (ths b)
+            then if list_eqb cstate_eqb (ctxs a) (ctxs b) then list_eqb Bool.eqb (gates a) (gates b) else false
+            else false
+       else false
+  else false.
 
 Definition init (cfg : list (option nat * kind)) (nctx ngates : nat) : st :=
   mkSt (map (fun p => mkT (fst p) (snd p) PIdle) cfg) 0%Z false (repeat CLive nctx) (repeat false ngates).
@@ -466,11 +473,16 @@ Definition pc_eqb (a b : pc) : bool :=
   | _, _ => false
   end.
 Definition thread_eqb (a b : thread) : bool :=
-  optnat_eqb (t_gate a) (t_gate b) && Nat.eqb (t_calls a) (t_calls b) && pc_eqb (t_pc a) (t_pc b).
+  if pc_eqb (t_pc a) (t_pc b)
+  then if Nat.eqb (t_calls a) (t_calls b) then optnat_eqb (t_gate a) (t_gate b) else false
+  else false.
 Definition st_eqb (a b : st) : bool :=
-  list_eqb thread_eqb (ths a) (ths b) && once_eqb (onc a) (onc b) && Nat.eqb (fcount a) (fcount b)
-  && Bool.eqb (fgated a) (fgated b) && Bool.eqb (fopen a) (fopen b) && Z.eqb (fbase a) (fbase b)
-  && list_eqb Bool.eqb (gates a) (gates b).
+  if once_eqb (onc a) (onc b)
+  then if list_eqb thread_eqb (ths a) (ths b)
+       then Nat.eqb (fcount a) (fcount b) && Bool.eqb (fgated a) (fgated b) && Bool.eqb (fopen a) (fopen b)
+            && Z.eqb (fbase a) (fbase b) && list_eqb Bool.eqb (gates a) (gates b)
+       else false
+  else false.
 
 (* cfg: per thread (start gate, number of calls) *)
 Definition init (cfg : list (option nat * nat)) (gated : bool) (base : Z) (ngates : nat) : st :=
